@@ -76,6 +76,31 @@ def same_code(base_text, ann_text, nonce=None):
     return "no removal of one `byte <nonce>; pop` pair makes the streams equal"
 
 
+def differs_only_in_slot_ops(base_text, ann_text, nonce=None):
+    """signature of the 'annotation between a store and its load keeps the slot optimiser from cancelling the pair'
+    finding: without their store / load instructions (and without the nonce's push-and-pop) the two programs are
+    the same instruction sequence (branches compared by opcode only: their targets shift with the pairs)"""
+    def core(text):
+        out = []
+        ins = asm.assemble(text).instrs
+        k = 0
+        while k < len(ins):
+            i = ins[k]
+            if i.op in ("store", "load"):
+                k += 1
+                continue
+            if nonce is not None and i.op in ("byte", "pushbytes") and tuple(i.args) == (nonce,) and k + 1 < len(ins) and ins[k + 1].op == "pop":
+                k += 2
+                continue
+            out.append((i.op,) if i.op in ("b", "bz", "bnz", "callsub") else (i.op, tuple(map(str, i.args))))
+            k += 1
+        return out
+    try:
+        return core(base_text) == core(ann_text)
+    except Exception:
+        return False
+
+
 def _resolved(p, cut):
     """instruction stream with every branch target replaced by the index of the instruction it designates;
     cut = i removes instructions i and i+1 (targets behind them move up by two)"""
@@ -301,6 +326,8 @@ def check_variant(base_prog, base_text, ann_prog, cfg, out, meta, nonce=None, ag
                          # the known block-structure findings re-route branches; they never add or drop a
                          # CONDITIONAL branch (which pops its operand)
                          "cond_branches_equal": ncond(base_text) == ncond(text),
+                         "optimising_config": bool(cfg.scratch_slots) or (cfg.scratch_slots is None and cfg.version >= 9),
+                         "differs_only_in_slot_ops": differs_only_in_slot_ops(base_text, text, nonce),
                          "loop_tail": bool(meta.get("loop_tail"))},
         })
 
@@ -411,8 +438,10 @@ def run(tier):
                 "adversarial alphabet x {Comment, Assert comment, subroutine name}; (b) every base recipe x every insertion "
                 "point x {Comment, Pragma, Nonce(3 bases)} x a list of nasty texts / valid payloads")
     # version 2 is there for the Assert fallback (no `assert` opcode: bnz/err), version 3 for the first `assert`
-    _CFGS = [rb.Cfg(2, "A"), rb.Cfg(6, "A"), rb.Cfg(8, "A")] if tier == "quick" else \
-        [rb.Cfg(2, "A"), rb.Cfg(3, "A"), rb.Cfg(4, "A"), rb.Cfg(6, "A"), rb.Cfg(8, "A"), rb.Cfg(10, "A", scratch_slots=False)]
+    # (the slot optimiser runs by default from version 9 and on request below)
+    _CFGS = [rb.Cfg(2, "A"), rb.Cfg(6, "A"), rb.Cfg(8, "A"), rb.Cfg(6, "A", scratch_slots=True), rb.Cfg(10, "A")] if tier == "quick" else \
+        [rb.Cfg(2, "A"), rb.Cfg(3, "A"), rb.Cfg(4, "A"), rb.Cfg(6, "A"), rb.Cfg(8, "A"), rb.Cfg(10, "A", scratch_slots=False),
+         rb.Cfg(6, "A", scratch_slots=True), rb.Cfg(9, "A"), rb.Cfg(10, "A")]
     L = 3 if tier == "quick" else 4
     all_texts = texts(L)
     rep.bounds["text_max_len"] = L
